@@ -5,6 +5,7 @@ EXTENDS EqSolve
 
 H_All   == HomogRx
 H_Shapes == HomogRx \cup ShapeRx
+H_Mixed == ShapeRx \cup {1, 2, 5, 8}
 S_All   == {12, 13, 14, 15, 16, 17}
 W_None  == { {} }
 W_Water == { {}, {1} }
@@ -30,7 +31,7 @@ GH(a) == a * 10000
 GLn(a) == IF a > 0 THEN LnTab[a] ELSE 0
 Vec3(a, b, s) == [h |-> <<GH(a), GH(b), GH(s)>>, l |-> <<0, 0, 0>>, ln |-> <<GLn(a), GLn(b), GLn(s)>>,
                   pos |-> <<a > 0, b > 0, s > 0>>]
-GS_All == {Vec3(a, b, s) : a \in 0..6, b \in 0..6, s \in -3..4}
+GS_All == {Vec3(a, b, s) : a \in 0..5, b \in 0..5, s \in -2..3}
 Inits3 == {Vec3(a, b, s) : a \in 0..3, b \in 0..3, s \in 0..2} \ {Vec3(0, 0, 0)}
 \* AgCl(s) = Ag+ + Cl-  (species order Ag+, Cl-, solid):  K = a b  in grid units
 \* Mg(OH)2(s) = Mg+2 + 2 OH-  (species order OH-, Mg+2, solid):  K = a^2 b
